@@ -11,6 +11,7 @@ COMMON_TRUSTED = [
 
 # (file under coq/Gen, acra-vh arguments that print it): regenerated from /repo on every run
 GENERATORS = [
+    ("KswConsts.v", ["kswconsts"]),
     ("TypedConsts.v", ["typed"]),
     ("AuditLogConsts.v", ["auditlog"]),
     ("Prec.v", ["sqlprec"]),
@@ -32,6 +33,45 @@ def dom(name, run_mod, nq, nt, model=True):
 
 
 PROPS = {
+    "C17": {
+        "domains": [
+            {
+                "name": "c17",
+                "run_vo": "Model/RunKeystoreWrite.vo",
+                "n_quick": 12,
+                "n_thorough": 40,
+                "model": True
+            }
+        ],
+        "trusted": [
+            "cooperative scheduler in the harness (cmd/acra-vh/c17.go): every back-end call of every real keystore handle waits for the scheduler; the lock bookkeeping of the scheduler mirrors Model.KeystoreWrite.lock_step",
+            "same abstraction of key ring files as C08 (vh/ksw.go)",
+            "flock across processes and the Go memory model are outside the model; v1 single-handle stress under -race not done"
+        ],
+        "assumptions": [
+            "each back-end call is atomic; Lock/RLock exclude as sync.RWMutex/flock do",
+            "serializability for ALL interleavings is proved by exhaustive computation in Coq for two writers x one operation each (bounded); unbounded: lock discipline lemmas + per-update preservation lemmas only"
+        ]
+    },
+    "C08": {
+        "domains": [
+            {
+                "name": "c08",
+                "run_vo": "Model/RunKeystoreWrite.vo",
+                "n_quick": 4,
+                "n_thorough": 40,
+                "model": True
+            }
+        ],
+        "trusted": [
+            "file names are structured values and a key ring file is (signature validity bit, [(seqnum, state, key ordinal)], current): ASN.1/signature bytes, path strings (C07) and key encryption (C06) are abstracted by the harness (vh/ksw.go KswAbstract)",
+            "fault-injecting wrapper vh.KswBackend around the real backend.InMemory; DirectoryBackend/flock/fsync behaviour is the stated hypothesis, not exercised"
+        ],
+        "assumptions": [
+            "each back-end call is atomic; Rename is atomic and replaces its target; a completed Put (fsync) is durable; a torn write can only leave a strict prefix in the NEW file being created",
+            "a key ring file holding a strict prefix of a signed ring does not verify (validity bit False)"
+        ]
+    },
     "C19": {
         "domains": [
             {
